@@ -41,6 +41,7 @@ Definition ofME (m e : Z) : F64 := binary_normalize prec emax Hprec Hmax mode_NE
 
 Definition f64_epsilon : F64 := ofME 1 (-52).
 
+Definition f64_nan : F64 := B754_nan.
 Definition fis_nan (x : F64) : bool := match x with B754_nan => true | _ => false end.
 Definition fis_finite (x : F64) : bool := is_finite x.
 
